@@ -20,7 +20,8 @@ Record c01case := {
   c_defl : list (list N * list N);              (* oracle tables from Go's gzip / json *)
   c_infl : list (list N * option (list N));
   c_json : list (list N * option (list N));
-  c_obs : list obs }.
+  c_obs : list obs;
+  c_carry : bool }.                             (* message transport (WebSocket adapter): cuts are message lengths *)
 
 Definition tbl_deflate (c : c01case) (b : list N) : list N :=
   match lookup (c_defl c) b with Some z => z | None => [] end.
@@ -30,7 +31,8 @@ Definition tbl_json (c : c01case) (b : list N) : option (list N) :=
   match lookup (c_json c) b with Some r => r | None => None end.
 
 Definition model_obs (c : c01case) : list pres :=
-  read_stream current_variant MaxPacketBodySize (tbl_inflate c) (tbl_json c) (c_wire c) (c_cuts c).
+  read_all current_variant MaxPacketBodySize (tbl_inflate c) (tbl_json c) (S (length (c_wire c)))
+           {| rest := c_wire c; cuts := c_cuts c; endk := 0; carry := c_carry c |}.
 
 Definition check_case (c : c01case) : bool :=
   all2 pres_matches (model_obs c) (c_obs c)
@@ -56,7 +58,8 @@ Definition dec_case (v : tval) : c01case :=
      c_defl := map (fun e => (vb (vnth 0 e), vb (vnth 1 e))) (vl (vnth 3 v));
      c_infl := map (fun e => (vb (vnth 0 e), dec_optb (vnth 1 e))) (vl (vnth 4 v));
      c_json := map (fun e => (vb (vnth 0 e), dec_optb (vnth 1 e))) (vl (vnth 5 v));
-     c_obs := map dec_obs (vl (vnth 6 v)) |}.
+     c_obs := map dec_obs (vl (vnth 6 v));
+     c_carry := vbool (vnth 7 v) |}.
 
 Definition check (v : tval) : bool := check_case (dec_case v).
 
